@@ -1,9 +1,9 @@
 (** C01 — field mode emits exactly the requested fields.  Statements only.
     Proved here: the splitting core for every non-empty literal delimiter (self-overlapping
-    ones included).  The full statement (trim, -p, -g, the output loop) is the executable
-    model itself, tied to the code by the correspondence check; see DESIGN.md §3 C01. *)
+    ones included); what -g, -p, -t and -s do to the fields; how the general path stages a
+    record; the whole record under plain options.  See DESIGN.md §3 C01. *)
 From TucModel Require Import Base.Bytes Base.ListX Model.Bounds Model.BoundsParse Model.Scan Model.Opt
-     Model.CutBytes Model.CutStr Spec.Fields Proofs.C06 Proofs.ScanSplit Proofs.Plain.
+     Model.CutBytes Model.CutStr Spec.Fields Proofs.C06 Proofs.ScanSplit Proofs.Plain Proofs.C01More.
 
 (** the byte ranges pushed by fill_with_fields_locations cut a non-empty record into
     pieces ps with  p1 ++ d ++ p2 ++ ... ++ pk = record  where every delimiter occurrence used
@@ -47,6 +47,72 @@ Theorem C01_replacement_rewrites_exactly_the_separators :
     replace_matches (intercalate [d] fs) (lit_matches [d] (intercalate [d] fs)) rep = intercalate rep fs.
 Proof. exact replace_joined. Qed.
 
+(** the fields of the statement are unique: any cutting of the record that satisfies
+    [is_split] is the one the splitter computes *)
+Theorem C01_fields_are_unique :
+  forall d : bytes, d <> [] -> forall (ps : list bytes) (line : bytes), is_split d line ps -> split d line = ps.
+Proof. exact split_unique. Qed.
+
+(** -g counts a run of delimiters as one separator: the fields are those of the record minus
+    the empty ones strictly inside it (the ranges still index the original record, so a
+    selected range prints the runs between its fields whole) *)
+Theorem C01_greedy_fields :
+  forall d line : bytes, d <> [] -> line <> [] ->
+    pieces line (fields_of_matches (merge_adjacent (lit_matches d line)) line) = squeeze (split d line).
+Proof. exact greedy_fields. Qed.
+
+(** -p collapses every run of delimiters before the fields are counted: the compressed
+    record is those same fields joined by single delimiters, and cutting it gives them back *)
+Theorem C01_compress_collapses_runs :
+  forall d line : bytes, d <> [] -> line <> [] ->
+    compress_delimiter d line = intercalate d (squeeze (split d line)).
+Proof. exact compress_is_squeeze. Qed.
+
+Theorem C01_compress_then_split :
+  forall d line : bytes, d <> [] -> line <> [] ->
+    split d (compress_delimiter d line) = squeeze (split d line).
+Proof. exact compress_then_split. Qed.
+
+(** -t l / -t r: every whole copy of the delimiter at that end goes, nothing else *)
+Theorem C01_trim_left :
+  forall d l : bytes, d <> [] ->
+    exists k, l = copies d k ++ trim_left d l /\ strip_prefix d (trim_left d l) = None.
+Proof. exact trim_left_spec. Qed.
+
+Theorem C01_trim_right :
+  forall d l : bytes, d <> [] ->
+    exists k, l = trim_right d l ++ copies d k /\ forall x, trim_right d l <> x ++ d.
+Proof. exact trim_right_spec. Qed.
+
+(** -s drops exactly the records that contain no delimiter *)
+Theorem C01_one_field_iff_no_delimiter :
+  forall d line : bytes, d <> [] -> (length (split d line) = 1 <-> ~ occurs_in d line).
+Proof. exact one_field_iff_no_delimiter. Qed.
+
+(** the general path on a literal delimiter in field mode is: trim, then (empty record ->
+    EOL or nothing under -s), else stage the record ([lit_stage]: compress, split plain or
+    greedy), then [finish_record] (-s, complement, output loop, EOL) ... *)
+Theorem C01_general_path_stages :
+  forall (o : opt) (line0 : bytes),
+    o_regex o = None -> o_btype o = BFields -> o_json o = false ->
+    cut_str o line0
+    = Some (let line1 := match o_trim o with
+                         | None => line0
+                         | Some k => trim_lit k (o_delim o) line0
+                         end in
+            match line1 with
+            | [] => ROk (if o_only_delimited o then [] else [o_eol o])
+            | _ => finish_record o (fst (lit_stage o line1)) (snd (lit_stage o line1))
+            end).
+Proof. exact cut_str_literal. Qed.
+
+(** ... and the fields it hands to the output loop are the fields of the statement for that
+    option set, for every combination of -p and -g *)
+Theorem C01_staged_fields_are_the_fields :
+  forall (o : opt) (line1 : bytes), o_delim o <> [] -> line1 <> [] ->
+    pieces (fst (lit_stage o line1)) (snd (lit_stage o line1)) = spec_fields o line1.
+Proof. exact stage_fields. Qed.
+
 (** non-vacuity: '--' in '---' (self-overlapping): fields "" and "-" *)
 Example C01_self_overlapping :
   pieces [45;45;45]%N (fields_of_matches (lit_matches [45;45]%N [45;45;45]%N) [45;45;45]%N)
@@ -58,3 +124,21 @@ Print Assumptions C01_offsets_equal_values.
 Print Assumptions C01_split_is_leftmost_nonoverlapping.
 Print Assumptions C01_plain_record_is_exactly_the_requested_fields.
 Print Assumptions C01_replacement_rewrites_exactly_the_separators.
+Print Assumptions C01_fields_are_unique.
+Print Assumptions C01_greedy_fields.
+Print Assumptions C01_compress_collapses_runs.
+Print Assumptions C01_compress_then_split.
+Print Assumptions C01_trim_left.
+Print Assumptions C01_trim_right.
+Print Assumptions C01_one_field_iff_no_delimiter.
+Print Assumptions C01_general_path_stages.
+Print Assumptions C01_staged_fields_are_the_fields.
+
+(** non-vacuity: a--b-  under -p and under -g: fields a, b and the empty last one *)
+Example C01_squeeze_example :
+  compress_delimiter [45]%N [97;45;45;98;45]%N = [97;45;98;45]%N
+  /\ squeeze (split [45]%N [97;45;45;98;45]%N) = [[97]; [98]; []]%N
+  /\ pieces [97;45;45;98;45]%N
+        (fields_of_matches (merge_adjacent (lit_matches [45]%N [97;45;45;98;45]%N)) [97;45;45;98;45]%N)
+     = [[97]; [98]; []]%N.
+Proof. repeat split; reflexivity. Qed.
